@@ -129,7 +129,12 @@ fn sign_mut_release(_alg: Alg, _blob: &[u8], _msg: &[u8]) -> Option<(libcall::Si
 
 pub fn run_case(prop: &str, c: Case, w: &mut Worker, ctx: &Ctx, hook: Hook) {
     let mut rng = Rng::new(ctx.seed).fork(&format!("c01-{}", c.tag));
-    let kp = match libcall::keygen(c.alg, &c.levels, &c.seed, None) {
+    // key generation fills an aux buffer big enough to cache the whole top tree (capped at 2 MiB);
+    // the signing entry points that take aux data get a copy of it (what it may and may not change
+    // is C10's business; here the released signature must verify either way)
+    let n = c.alg.n();
+    let mut aux0 = libcall::AuxBuf::new(vec![0u8; (4 + n + (n << (c.levels[0].h + 1).min(17))).min(2 << 20)]);
+    let kp = match libcall::keygen(c.alg, &c.levels, &c.seed, Some(&mut aux0)) {
         Out::Ok(k) => k,
         other => {
             w.report.violation(
@@ -168,7 +173,8 @@ pub fn run_case(prop: &str, c: Case, w: &mut Worker, ctx: &Ctx, hook: Hook) {
                     let msg = rng.bytes(len);
                     let entry = entries[(pi + k) % 3];
                     let rec = match entry {
-                        SignEntry::Bytes => libcall::sign_bytes(c.alg, &blob, &msg, Cb::Accept, None),
+                        SignEntry::Bytes => libcall::sign_bytes(c.alg, &blob, &msg, Cb::Accept, if pi % 2 == 1 { Some(&mut aux0) } else { None }),
+                        SignEntry::TrySignAux => libcall::sign_key(c.alg, &blob, &msg, SignEntry::TrySignAux, Some(&mut aux0)),
                         e => libcall::sign_key(c.alg, &blob, &msg, e, None),
                     };
                     let next = match entry {
@@ -217,7 +223,8 @@ pub fn run_case(prop: &str, c: Case, w: &mut Worker, ctx: &Ctx, hook: Hook) {
                     }
                     None => (
                         match entry {
-                            SignEntry::Bytes => libcall::sign_bytes(c.alg, &cur, &msg, Cb::Accept, None),
+                            SignEntry::Bytes => libcall::sign_bytes(c.alg, &cur, &msg, Cb::Accept, if step % 2 == 1 { Some(&mut aux0) } else { None }),
+                            SignEntry::TrySignAux => libcall::sign_key(c.alg, &cur, &msg, SignEntry::TrySignAux, Some(&mut aux0)),
                             e => libcall::sign_key(c.alg, &cur, &msg, e, None),
                         },
                         msg,
@@ -472,7 +479,7 @@ pub fn run(ctx: &Ctx) -> Report {
     rep.count("keys", n_cases as i128);
     rep.rule = "every released signature is verified through hbs_lms::verify, VerifyingKey+Signature and VerifyingKey+VerifierSignature; \
                 cases = (hash, parameter list, counter, message) from a grid (6 hashes x W x H2/H5 single level, mixed 2..8-level lists, H10 levels, H15 trees (thorough: also inside multi-level keys, and H20)) at \
-                boundary counters (0, 1, around every subtree roll-over, last) plus complete lifetime walks through the callback chain alternating the three signing entry points; \
+                boundary counters (0, 1, around every subtree roll-over, last) plus complete lifetime walks through the callback chain alternating the three signing entry points, with and without the aux buffer that key generation filled (sized to cache the whole top tree, up to 2 MiB); \
                 distinct_nontrivial = distinct (hash, parameter list, counter, message-length class) with >1 level or counter>0 or (n,W) outside SHA-256/32 W1/W2"
         .into();
     // every upper level must have rolled over at least once per hash
